@@ -595,14 +595,25 @@ def _reject(a):
     L = sp.linop
     A, B = L.Resize([a["a"]], [a["b"]]), L.Resize([a["c"]], [a["d"]])
     kind = a["kind"]
-    fits = {"compose": a["b"] == a["c"], "add": a["a"] == a["c"] and a["b"] == a["d"], "apply": a["b"] == a["c"]}[kind]
+    fits = {"compose": a["b"] == a["c"], "add": a["a"] == a["c"] and a["b"] == a["d"], "apply": a["b"] == a["c"]}.get(kind, False)
+    R = lambda o, i: L.Resize(o, i)
     try:
         if kind == "compose":
             L.Compose([A, B])
         elif kind == "add":
             L.Add([A, B])
-        else:
+        elif kind == "apply":
             A.apply(np.zeros([a["c"]]))
+        elif kind == "add-rank-o":
+            L.Add([R([a["a"], a["b"]], [a["c"]]), R([a["d"]], [a["c"]])])
+        elif kind == "add-rank-i":
+            L.Add([R([a["c"]], [a["a"], a["b"]]), R([a["c"]], [a["d"]])])
+        elif kind == "hstack-rank":
+            L.Hstack([R([a["a"], a["b"]], [a["c"]]), R([a["d"]], [a["c"]])], axis=0)
+        elif kind == "vstack-rank":
+            L.Vstack([R([a["c"]], [a["a"], a["b"]]), R([a["c"]], [a["d"]])], axis=0)
+        elif kind == "compose-rank":
+            L.Compose([R([a["a"]], [a["b"], a["c"]]), R([a["d"]], [a["a"]])])
         ok = True
     except Exception:
         ok = False
